@@ -172,6 +172,17 @@ pub fn roundtrip(payload: &[u8], fill: u64) -> Result<u64, String> {
     if sodium::box_seal_open(&sl.to_vec(), &rpk, &rsk).as_deref() != Some(payload) {
         return Err("sealed to_vec is not libsodium's sealed-box layout".into());
     }
+    // sealed box taken apart and reassembled (the ephemeral public key is one of the parts)
+    {
+        let (t, d, e) = sl.clone().into_parts();
+        chk_sl(&DryocBox::from_parts(t, d, e)).map_err(|m| format!("sealed into_parts/from_parts: {m}"))?;
+        let from_ref: DryocBox<SB<32>, SB<16>, Vec<u8>> = DryocBox::from_sealed_bytes(&sodium::box_seal(payload, &rpk)).map_err(de)?;
+        let (t, d, e) = from_ref.clone().into_parts();
+        let back: DryocBox<SB<32>, SB<16>, Vec<u8>> = DryocBox::from_parts(t, d, e);
+        if sodium::box_seal_open(&back.to_vec(), &rpk, &rsk).as_deref() != Some(payload) {
+            return Err("a libsodium sealed box parsed, taken apart with into_parts and reassembled with from_parts no longer opens under libsodium".into());
+        }
+    }
     let bxv: DryocBox<Vec<u8>, Vec<u8>, Vec<u8>> = DryocBox::seal(payload, &rpk.to_vec()).map_err(de)?;
     formats("DryocBox<Vec,Vec,Vec> sealed", &bxv, &|d| if *d == bxv { Ok(()) } else { Err("decoded != original".into()) }, &mut n)?;
 
@@ -226,6 +237,34 @@ pub fn roundtrip(payload: &[u8], fill: u64) -> Result<u64, String> {
     }, &mut n)?;
     let (h_, s_, c_) = ph.clone().into_parts();
     PwHash::from_parts(h_, s_, c_).verify(&pw.to_vec()).map_err(|e| format!("PwHash into_parts/from_parts no longer verifies: {e:?}"))?;
+    // password-hash objects of other provenance: (a) made with a caller-supplied salt whose length differs from the
+    // config's salt_length, (b) parsed from an Argon2i string, (c) parsed from an Argon2id string with non-default lengths
+    {
+        let salt = f.bytes(17 + payload.len() % 30);
+        let cfg2 = Config::interactive().with_opslimit(1).with_memlimit(8192);
+        let mut others: Vec<(&str, PwHash<Vec<u8>, Vec<u8>>)> = vec![];
+        if let Ok(p) = PwHash::<Vec<u8>, Vec<u8>>::hash_with_salt(&pw.to_vec(), salt, cfg2) {
+            others.push(("hash_with_salt(salt length != config.salt_length)", p));
+        }
+        let si = sodium::argon2_encoded(sodium::ALG_ARGON2I13, 3, 8 + (payload.len() % 5) as u32, pw, &f.bytes(8 + payload.len() % 9), 16 + payload.len() % 40).ok_or("harness: argon2_encoded")?;
+        others.push(("from_string(argon2i)", PwHash::from_string(&si).map_err(|e| format!("from_string({si}): {e:?}"))?));
+        let sd = sodium::argon2_encoded(sodium::ALG_ARGON2ID13, 1, 9, pw, &f.bytes(24), 48).ok_or("harness: argon2_encoded")?;
+        others.push(("from_string(argon2id, 24-byte salt, 48-byte hash)", PwHash::from_string(&sd).map_err(|e| format!("from_string({sd}): {e:?}"))?));
+        for (what, p) in &others {
+            p.verify(&pw.to_vec()).map_err(|e| format!("harness: PwHash {what} does not verify before encoding: {e:?}"))?;
+            let want = serde_json::to_value(p).map_err(|e| e.to_string())?;
+            let want_str = p.to_string();
+            formats(&format!("PwHash {what}"), p, &|d| {
+                if serde_json::to_value(d).map_err(|e| e.to_string())? != want {
+                    return Err("decoded PwHash != original".into());
+                }
+                if d.to_string() != want_str {
+                    return Err(format!("decoded PwHash prints {} instead of {want_str}", d.to_string()));
+                }
+                d.verify(&pw.to_vec()).map_err(|e| format!("decoded PwHash no longer verifies: {e:?}"))
+            }, &mut n)?;
+        }
+    }
     n += 12;
     #[cfg(feature = "nightly")]
     {
